@@ -3,6 +3,8 @@ package compaction
 import (
 	"fmt"
 	"os"
+	"path/filepath"
+	"sort"
 	"sync"
 )
 
@@ -71,8 +73,18 @@ func (f *DefaultFileTracker) CleanupObsoleteFiles() error {
 	f.filesMu.Lock()
 	defer f.filesMu.Unlock()
 
-	// Safely remove obsolete files that aren't pending
+	// Remove the files holding the oldest data first. Reads prefer shallower
+	// levels and, within a level, younger files: if the process stops half
+	// way, an input that is still there must not be older than one that is
+	// already gone, or it would shadow the compaction's output after a restart
+	paths := make([]string, 0, len(f.obsoleteFiles))
 	for path := range f.obsoleteFiles {
+		paths = append(paths, path)
+	}
+	sort.Slice(paths, func(i, j int) bool { return holdsOlderData(paths[i], paths[j]) })
+
+	// Safely remove obsolete files that aren't pending
+	for _, path := range paths {
 		// Skip files that are still being used in a compaction
 		if f.pendingFiles[path] {
 			continue
@@ -92,4 +104,24 @@ func (f *DefaultFileTracker) CleanupObsoleteFiles() error {
 	}
 
 	return nil
+}
+
+// holdsOlderData orders SSTable paths (level_sequence_timestamp.sst) by the age
+// of their data: deeper levels first, then older creation times, then lower
+// sequence numbers; paths that are not SSTable names sort by name
+func holdsOlderData(a, b string) bool {
+	var la, lb int
+	var sa, sb, ta, tb uint64
+	na, _ := fmt.Sscanf(filepath.Base(a), "%d_%06d_%020d.sst", &la, &sa, &ta)
+	nb, _ := fmt.Sscanf(filepath.Base(b), "%d_%06d_%020d.sst", &lb, &sb, &tb)
+	if na != 3 || nb != 3 {
+		return a < b
+	}
+	if la != lb {
+		return la > lb
+	}
+	if ta != tb {
+		return ta < tb
+	}
+	return sa < sb
 }
